@@ -31,13 +31,21 @@ def main(argv):
     ran = []
     wt = tempfile.mkdtemp(prefix='verif-seedwt-')
     os.rmdir(wt)
-    subprocess.check_call(['git', '-C', '/repo', 'worktree', 'add', '--detach', wt, 'HEAD'], stdout=subprocess.DEVNULL, stderr=subprocess.DEVNULL)
+    base = 'HEAD'
+    if '--base' in argv:
+        base = argv[argv.index('--base') + 1]
+    subprocess.check_call(['git', '-C', '/repo', 'worktree', 'add', '--detach', wt, base], stdout=subprocess.DEVNULL, stderr=subprocess.DEVNULL)
+    ran.append('git worktree add --detach <scratch> %s' % base)
     # share one target dir between confirmations to save rebuilds of dependencies
     tgt = '/tmp/verif-seed-target'
     env_prefix = 'CARGO_TARGET_DIR=%s ' % tgt
     verdict = {}
     try:
         rc, o = sh('git apply %s/demo.diff' % out, wt)
+        if rc != 0 and base == 'HEAD':
+            # written against an earlier commit of /repo (before later fix: commits): confirm it there
+            subprocess.call(['git', '-C', '/repo', 'worktree', 'remove', '--force', wt], stdout=subprocess.DEVNULL, stderr=subprocess.DEVNULL)
+            return main(argv + ['--base', '692fdbd'])
         if rc != 0:
             print('demo.diff does not apply:', o[-400:])
             return 1
@@ -47,6 +55,9 @@ def main(argv):
         ok_without = 'test result: ok' in o1 and ' 0 passed' not in o1.split('test result: ok')[1][:40] if 'test result: ok' in o1 else False
         passed_without = ('test result: ok' in o1) and ('0 passed' not in o1.replace('; 0 failed', ''))
         rc, o = sh('git apply %s/patch.diff' % out, wt)
+        if rc != 0 and base == 'HEAD':
+            subprocess.call(['git', '-C', '/repo', 'worktree', 'remove', '--force', wt], stdout=subprocess.DEVNULL, stderr=subprocess.DEVNULL)
+            return main(argv + ['--base', '692fdbd'])
         if rc != 0:
             print('patch.diff does not apply on top of demo:', o[-400:])
             return 1
@@ -96,7 +107,7 @@ def main(argv):
             shutil.copy2(os.path.join(out, f), os.path.join(dst, f))
     readme = open(os.path.join(out, 'README.md')).read() if os.path.exists(os.path.join(out, 'README.md')) else ''
     meta = {
-        'id': sid, 'property': prop,
+        'id': sid, 'property': prop, 'confirmed_at_commit': base,
         'summary': readme.strip().split('\n')[0][:200],
         'demo_cmd': 'cargo test --offline -p %s %s' % (crate, flt),
         'confirmed': verdict,
